@@ -26,7 +26,7 @@ MC = "MC_Trigger"
 DEFAULT, NEVER, MANUAL = 0, 1, 2
 WHEN = {DEFAULT: "DEFAULT", NEVER: "NEVER", MANUAL: "MANUAL_UPDATES"}
 PARTS = 8               # TLC processes for the thorough design model (one worker each: deterministic)
-SHARDS = {"quick": 8, "thorough": 32}
+SHARDS = {"quick": 12, "thorough": 32}
 
 
 # ---------------------------------------------------------------------------------------------
